@@ -56,13 +56,22 @@ async fn asynchronous(worterbuch: &CloneableWbApi, config: &Config) -> Persisten
         return Err(PersistenceError::StoreLocked);
     }
 
+    // the slot that is NOT active is written; the active one (last completed flush) stays untouched
+    // until the new snapshot is completely on disk
+    let write_to_main = !is_main_slot_active(config).await;
     let (
         store_path,
         store_path_checksum,
         grave_goods_last_will_path,
         grave_goods_last_will_path_checksum,
         last_persisted,
-    ) = file_paths(config, true).await?;
+    ) = slot_paths(config, write_to_main);
+
+    // the slot that is rewritten must not validate (as a pair of store and grave goods / last
+    // wills) before it is complete again, otherwise a crash could leave files of two flushes in it
+    invalidate_slot(&store_path_checksum, &grave_goods_last_will_path_checksum).await?;
+    #[cfg(feature = "verif")]
+    crate::verif::crash_point("after-invalidate")?;
 
     let json = json.to_string();
     write_and_check(json.as_bytes(), &store_path, &store_path_checksum).await?;
@@ -77,6 +86,11 @@ async fn asynchronous(worterbuch: &CloneableWbApi, config: &Config) -> Persisten
         &grave_goods_last_will_path_checksum,
     )
     .await?;
+
+    // commit: only now the freshly written slot becomes the active one
+    activate_slot(config, write_to_main).await?;
+    #[cfg(feature = "verif")]
+    crate::verif::crash_point("after-toggle")?;
 
     #[cfg(feature = "verif")]
     crate::verif::crash_point("before-timestamp")?;
@@ -104,13 +118,22 @@ pub(crate) async fn synchronous(
         return Err(PersistenceError::StoreLocked);
     }
 
+    // the slot that is NOT active is written; the active one (last completed flush) stays untouched
+    // until the new snapshot is completely on disk
+    let write_to_main = !is_main_slot_active(config).await;
     let (
         store_path,
         store_path_checksum,
         grave_goods_last_will_path,
         grave_goods_last_will_path_checksum,
         last_persisted,
-    ) = file_paths(config, true).await?;
+    ) = slot_paths(config, write_to_main);
+
+    // the slot that is rewritten must not validate (as a pair of store and grave goods / last
+    // wills) before it is complete again, otherwise a crash could leave files of two flushes in it
+    invalidate_slot(&store_path_checksum, &grave_goods_last_will_path_checksum).await?;
+    #[cfg(feature = "verif")]
+    crate::verif::crash_point("after-invalidate")?;
 
     debug!("Exporting database state …");
     let (data, grave_goods, last_will) = worterbuch.export();
@@ -129,6 +152,11 @@ pub(crate) async fn synchronous(
         &grave_goods_last_will_path_checksum,
     )
     .await?;
+
+    // commit: only now the freshly written slot becomes the active one
+    activate_slot(config, write_to_main).await?;
+    #[cfg(feature = "verif")]
+    crate::verif::crash_point("after-toggle")?;
 
     #[cfg(feature = "verif")]
     crate::verif::crash_point("before-timestamp")?;
@@ -210,59 +238,40 @@ async fn validate_file_content<P: AsRef<Path> + Debug>(
 
 #[instrument(skip(config) fields(version=3), err)]
 pub async fn load(config: &Config) -> PersistenceResult<Worterbuch> {
+    let main = is_main_slot_active(config).await;
+
+    match try_load_slot(config, main).await {
+        Ok(worterbuch) => Ok(worterbuch),
+        Err(e) => {
+            warn!("Could not load active persistence slot: {e}");
+            info!("Trying to load the other persistence slot …");
+            try_load_slot(config, !main).await
+        }
+    }
+}
+
+/// Loads store and grave goods / last wills from the same slot, so the two always stem from the
+/// same flush.
+async fn try_load_slot(config: &Config, main: bool) -> PersistenceResult<Worterbuch> {
     let (
         store_path,
         store_path_checksum,
         grave_goods_last_will_path,
         grave_goods_last_will_path_checksum,
         _,
-    ) = file_paths(config, false).await?;
+    ) = slot_paths(config, main);
 
-    let mut wb = match try_load(&store_path, &store_path_checksum, config).await {
-        Ok(worterbuch) => Ok(worterbuch),
-        Err(e) => {
-            warn!(
-                "Could not load persistence file {}: {e}",
-                store_path.to_string_lossy()
-            );
-            let (store_path, store_path_checksum, _, _, _) = file_paths(config, true).await?;
-            info!(
-                "Trying to load persistence file {} …",
-                store_path.to_string_lossy()
-            );
-            try_load(&store_path, &store_path_checksum, config).await
-        }
-    }?;
-
-    if let Ok(grave_goods_last_will) = match try_load_grave_goods_last_will(
+    // both files are validated before anything is applied
+    let grave_goods_last_will = try_load_grave_goods_last_will(
         &grave_goods_last_will_path,
         &grave_goods_last_will_path_checksum,
     )
-    .await
-    {
-        Ok(gglw) => Ok(gglw),
-        Err(e) => {
-            warn!(
-                "Could not load persistence file {}: {e}",
-                grave_goods_last_will_path.to_string_lossy()
-            );
-            let (_, _, grave_goods_last_will_path, grave_goods_last_will_path_checksum, _) =
-                file_paths(config, true).await?;
-            info!(
-                "Trying to load persistence file {} …",
-                grave_goods_last_will_path.to_string_lossy()
-            );
-            try_load_grave_goods_last_will(
-                &grave_goods_last_will_path,
-                &grave_goods_last_will_path_checksum,
-            )
-            .await
-        }
-    } {
-        wb.apply_grave_goods(grave_goods_last_will.grave_goods)
-            .await;
-        wb.apply_last_wills(grave_goods_last_will.last_will).await;
-    }
+    .await?;
+    let mut wb = try_load(&store_path, &store_path_checksum, config).await?;
+
+    wb.apply_grave_goods(grave_goods_last_will.grave_goods)
+        .await;
+    wb.apply_last_wills(grave_goods_last_will.last_will).await;
 
     Ok(wb)
 }
@@ -304,21 +313,15 @@ async fn read_json_from_file(path: &Path, checksum: &Path) -> PersistenceResult<
     Ok(json)
 }
 
-#[instrument(level=Level::DEBUG, skip(config), ret, err)]
-pub(crate) async fn file_paths(
-    config: &Config,
-    write: bool,
-) -> PersistenceResult<(PathBuf, PathBuf, PathBuf, PathBuf, PathBuf)> {
-    let dir = PathBuf::from(&config.data_dir);
-
-    let mut toggle_path = dir.clone();
+fn toggle_path(config: &Config) -> PathBuf {
+    let mut toggle_path = PathBuf::from(&config.data_dir);
     toggle_path.push(".toggle");
+    toggle_path
+}
 
-    let main = toggle_alternating_files(&toggle_path, write).await?;
-    #[cfg(feature = "verif")]
-    if write {
-        crate::verif::crash_point("after-toggle")?;
-    }
+#[instrument(level=Level::DEBUG, skip(config), ret)]
+fn slot_paths(config: &Config, main: bool) -> (PathBuf, PathBuf, PathBuf, PathBuf, PathBuf) {
+    let dir = PathBuf::from(&config.data_dir);
 
     let mut store_path = dir.clone();
     let mut store_path_checksum = dir.clone();
@@ -339,45 +342,63 @@ pub(crate) async fn file_paths(
     }
     last_persisted.push(TIMESTAMP_FILE_NAME);
 
-    Ok((
+    (
         store_path,
         store_path_checksum,
         grave_goods_last_will_path,
         grave_goods_last_will_path_checksum,
         last_persisted,
-    ))
+    )
 }
 
-#[instrument(level=Level::DEBUG, ret, err)]
-async fn toggle_alternating_files(path: &Path, write: bool) -> PersistenceResult<bool> {
-    if write {
-        if remove_file(path).await.is_ok() {
-            debug!(
-                "toggle file {} removed, writing to backup",
-                path.to_string_lossy()
-            );
-            Ok(false)
-        } else {
-            File::create(path).await?;
-            debug!(
-                "toggle file {} created, writing to main",
-                path.to_string_lossy()
-            );
-            Ok(true)
-        }
-    } else if File::open(path).await.is_ok() {
+/// The toggle file selects the slot that holds the last completed flush: present -> main (a),
+/// absent -> backup (b). Reading it never changes it.
+#[instrument(level=Level::DEBUG, skip(config), ret)]
+async fn is_main_slot_active(config: &Config) -> bool {
+    let path = toggle_path(config);
+    if File::open(&path).await.is_ok() {
         debug!(
-            "toggle file {} exists, reading from main",
+            "toggle file {} exists, main slot is active",
             path.to_string_lossy()
         );
-        Ok(true)
+        true
     } else {
         debug!(
-            "toggle file {} does not exists, reading from backup",
+            "toggle file {} does not exists, backup slot is active",
             path.to_string_lossy()
         );
-        Ok(false)
+        false
     }
+}
+
+/// Removes the checksum files of a slot, so that it cannot be loaded until both have been written again.
+#[instrument(level=Level::DEBUG, err)]
+async fn invalidate_slot(store_checksum: &Path, gglw_checksum: &Path) -> PersistenceResult<()> {
+    for path in [store_checksum, gglw_checksum] {
+        if let Err(e) = remove_file(path).await
+            && e.kind() != std::io::ErrorKind::NotFound
+        {
+            return Err(e.into());
+        }
+    }
+    Ok(())
+}
+
+/// Makes the given slot the active one. This single file system operation is what completes a flush.
+#[instrument(level=Level::DEBUG, skip(config), err)]
+async fn activate_slot(config: &Config, main: bool) -> PersistenceResult<()> {
+    let path = toggle_path(config);
+    if main {
+        File::create(&path).await?;
+        debug!("toggle file {} created", path.to_string_lossy());
+    } else if let Err(e) = remove_file(&path).await {
+        if e.kind() != std::io::ErrorKind::NotFound {
+            return Err(e.into());
+        }
+    } else {
+        debug!("toggle file {} removed", path.to_string_lossy());
+    }
+    Ok(())
 }
 
 #[instrument(level=Level::DEBUG, skip(data), ret)]
